@@ -324,6 +324,26 @@ func genEqProbes(seed int64, nEnv, perEnv int) []eqProbe {
 					}
 				}
 			}
+			if k%3 == 2 {
+				// two variants derived from the same definition (siblings: an unrolling against a
+				// re-association, a permutation against a one-difference copy, ...)
+				v := defs[len(defs)-1-r.Intn((len(defs)+1)/2)].Name
+				for _, d := range defs {
+					if d.Name == v || !strings.HasPrefix(v, d.Name) {
+						continue
+					}
+					var sib []string
+					for _, e := range defs {
+						if e.Name != v && e.Name != d.Name && strings.HasPrefix(e.Name, d.Name) {
+							sib = append(sib, e.Name)
+						}
+					}
+					if len(sib) > 0 {
+						a, b = v, sib[r.Intn(len(sib))]
+					}
+					break
+				}
+			}
 			want := vast.Equal(vast.Named(a, an.Modes[a]), vast.Named(b, an.Modes[b]), an.Trees)
 			var prog, kind string
 			switch r.Intn(3) {
@@ -344,7 +364,7 @@ func genEqProbes(seed int64, nEnv, perEnv int) []eqProbe {
 }
 
 func eqProbes(c *Check, pool *sup.Pool) {
-	ps := genEqProbes(subSeed(c.Seed, 7070), c.pick(150, 2500), c.pick(10, 16))
+	ps := genEqProbes(subSeed(c.Seed, 7070), c.pick(260, 2500), c.pick(14, 16))
 	jobs := make([]sup.Job, len(ps))
 	for i, p := range ps {
 		jobs[i] = sup.Job{Kind: "typecheck", Text: p.text, TypeBudget: 5000000}
